@@ -28,7 +28,8 @@ Inductive ferr :=
 | EHdrOverflow    (* header size overflows int *)
 | ESegTooLarge    (* segment %d too large *)
 | EUnaligned      (* segment %d not word-aligned *)
-| ESizeOverflow.  (* marshal: message size overflows int *)
+| ESizeOverflow   (* marshal: message size overflows int *)
+| EUnpack.        (* unmarshal: <error of packed.Unpack> *)
 
 Inductive res (A : Type) :=
 | Ok (a : A)
@@ -272,15 +273,24 @@ Inductive alloc :=
 | ABuf (n : Z)      (* make([]byte, total): the segment data *)
 | ATable (n : Z).   (* make([][]byte, maxSeg+1) in demuxArena, n = number of entries *)
 
-Record dstate := mkD {
-  d_rd : reader;
+(* the decoder state is generic in the reader it is given (a plain chunked stream, or
+   packed.Reader over one) *)
+Record gstate (R : Type) := mkD {
+  d_rd : R;
   d_hdrcap : Z;      (* cap(d.hdrbuf) *)
   d_bufcap : Z;      (* cap(d.buf) *)
   d_reuse : bool;
   d_max : Z          (* d.MaxMessageSize, a uint64 *)
 }.
+Arguments mkD {R}.
+Arguments d_rd {R}.
+Arguments d_hdrcap {R}.
+Arguments d_bufcap {R}.
+Arguments d_reuse {R}.
+Arguments d_max {R}.
+Notation dstate := (gstate reader).
 
-Definition d_init (r : reader) (maxSize : Z) : dstate := mkD r 0 0 false maxSize.
+Definition d_init {R} (r : R) (maxSize : Z) : gstate R := mkD r 0 0 false maxSize.
 
 Inductive dout :=
 | DMsg (segs : list (list Z))
@@ -288,15 +298,15 @@ Inductive dout :=
 | DErr (e : ferr)
 | DPanic.
 
-Definition with_rd (st : dstate) (r : reader) : dstate :=
+Definition with_rd {R} (st : gstate R) (r : R) : gstate R :=
   mkD r (d_hdrcap st) (d_bufcap st) (d_reuse st) (d_max st).
 
 (* resizeSlice(b, size): allocates only when cap(b) < size *)
 Definition resize (cap size : Z) : Z * bool := if cap <? size then (size, true) else (cap, false).
 
 (* second half of Decode: the header [hb] is complete *)
-Definition decode_body (st : dstate) (maxSize maxSeg : Z) (hb : list Z) (log : list alloc)
-  : dstate * dout * list alloc :=
+Definition gdecode_body {R} (rf : R -> Z -> rf_out * R) (st : gstate R) (maxSize maxSeg : Z)
+           (hb : list Z) (log : list alloc) : gstate R * dout * list alloc :=
   match total_size hb with
   | Err e => (st, DErr e, log)
   | Panic => (st, DPanic, log)
@@ -304,7 +314,7 @@ Definition decode_body (st : dstate) (maxSize maxSeg : Z) (hb : list Z) (log : l
     if (total >? wrap64 (maxSize - len hb)) || (total >? max_int) then (st, DErr ETooLarge, log)
     else if negb (d_reuse st) then
       let log := log ++ [ABuf total] in
-      match read_full (d_rd st) total with
+      match rf (d_rd st) total with
       | (RFok buf, r') =>
         let st' := with_rd st r' in
         match demux_arena hb buf with
@@ -318,7 +328,7 @@ Definition decode_body (st : dstate) (maxSize maxSeg : Z) (hb : list Z) (log : l
       let '(cap', fresh) := resize (d_bufcap st) total in
       let log := if fresh then log ++ [ABuf total] else log in
       let st1 := mkD (d_rd st) (d_hdrcap st) cap' true (d_max st) in
-      match read_full (d_rd st1) total with
+      match rf (d_rd st1) total with
       | (RFok buf, r') =>
         let st' := with_rd st1 r' in
         if maxSeg =? 0 then (st', DMsg [buf], log)
@@ -332,19 +342,26 @@ Definition decode_body (st : dstate) (maxSize maxSeg : Z) (hb : list Z) (log : l
       end
   end.
 
+(* the number of segments Decode accepts.  [fixed] = true: the repaired code rejects
+   maxSeg >= maxStreamSegments, i.e. accepts at most 512 segments; false: the code as found
+   tested maxSeg > maxStreamSegments and accepted 513. *)
+Definition seg_count_limit (fixed : bool) : Z :=
+  if fixed then max_stream_segments else max_stream_segments + 1.
+
 (* func (d *Decoder) Decode() *)
-Definition decode1 (st : dstate) : dstate * dout * list alloc :=
+Definition gdecode1_gen {R} (rf : R -> Z -> rf_out * R) (fixed : bool) (st : gstate R)
+  : gstate R * dout * list alloc :=
   let maxSize := if d_max st =? 0 then default_decode_limit else d_max st in
   if negb (d_max st =? 0) && (d_max st <? word_size) then (st, DErr EConfig, [])
   else
-    match read_full (d_rd st) word_size with
+    match rf (d_rd st) word_size with
     | (RFeof, r') => (with_rd st r', DEof, [])
     | (RFerr, r') => (with_rd st r', DErr EReadHeader, [])
     | (RFok w, r') =>
       let st := with_rd st r' in
       let maxSeg := le32_get w in
-      if maxSeg >? max_stream_segments then (st, DErr ETooManySegs, [])
-      else if maxSeg =? 0 then decode_body st maxSize maxSeg w []
+      if maxSeg + 1 >? seg_count_limit fixed then (st, DErr ETooManySegs, [])
+      else if maxSeg =? 0 then gdecode_body rf st maxSize maxSeg w []
       else
         let hdrSize := stream_header_size maxSeg in
         if (hdrSize >? maxSize) || (hdrSize >? max_int) then (st, DErr ETooLarge, [])
@@ -352,21 +369,29 @@ Definition decode1 (st : dstate) : dstate * dout * list alloc :=
           let '(cap', fresh) := resize (d_hdrcap st) hdrSize in
           let log := if fresh then [AHdr hdrSize] else [] in
           let st := mkD (d_rd st) cap' (d_bufcap st) (d_reuse st) (d_max st) in
-          match read_full (d_rd st) (hdrSize - word_size) with
-          | (RFok rest, r') => decode_body (with_rd st r') maxSize maxSeg (w ++ rest) log
+          match rf (d_rd st) (hdrSize - word_size) with
+          | (RFok rest, r') => gdecode_body rf (with_rd st r') maxSize maxSeg (w ++ rest) log
           | (_, r') => (with_rd st r', DErr EReadHeader, log)
           end
     end.
 
+(* the Decoder over a plain chunked stream *)
+Definition decode_body : dstate -> Z -> Z -> list Z -> list alloc -> dstate * dout * list alloc :=
+  gdecode_body read_full.
+Definition decode1_gen : bool -> dstate -> dstate * dout * list alloc := gdecode1_gen read_full.
+Definition decode1 : dstate -> dstate * dout * list alloc := decode1_gen true.
+
 (* histories: Decode calls interleaved with ReuseBuffer() and assignments to MaxMessageSize *)
 Inductive dop := OpDecode | OpReuse | OpSetMax (m : Z).
 
-Definition dstep (st : dstate) (o : dop) : dstate * option (dout * list alloc) :=
+Definition dstep_gen (fixed : bool) (st : dstate) (o : dop) : dstate * option (dout * list alloc) :=
   match o with
-  | OpDecode => let '(st', out, log) := decode1 st in (st', Some (out, log))
+  | OpDecode => let '(st', out, log) := decode1_gen fixed st in (st', Some (out, log))
   | OpReuse => (mkD (d_rd st) (d_hdrcap st) (d_bufcap st) true (d_max st), None)
   | OpSetMax m => (mkD (d_rd st) (d_hdrcap st) (d_bufcap st) (d_reuse st) (wrap64 m), None)
   end.
+
+Definition dstep : dstate -> dop -> dstate * option (dout * list alloc) := dstep_gen true.
 
 Fixpoint run_history (st : dstate) (ops : list dop) : dstate * list (dout * list alloc) :=
   match ops with
